@@ -28,6 +28,9 @@ macro_rules! lin_proof {
 // ---------------------------------------------------------------------------------------------
 macro_rules! ridge_p1 {
     ($name:ident, $n:expr, $unw:expr) => {
+        ridge_p1!($name, $n, $unw, RidgeRegressionSolverName::Cholesky);
+    };
+    ($name:ident, $n:expr, $unw:expr, $solver:expr) => {
         lin_proof! {
             #[cfg_attr(kani, kani::unwind($unw))]
             fn $name() {
@@ -52,7 +55,7 @@ macro_rules! ridge_p1 {
                 };
                 let alpha = a2 as f32 / 2.0;
                 let xm = DenseMatrix::from_array(N, 1, &x);
-                let params = RidgeRegressionParameters { solver: RidgeRegressionSolverName::Cholesky, alpha, normalize: false };
+                let params = RidgeRegressionParameters { solver: $solver, alpha, normalize: false };
                 let m = match RidgeRegression::fit(&xm, &y, params) {
                     Ok(m) => m,
                     Err(_) => vp_fail!("C07:ridge-fit-failed"),
@@ -88,6 +91,10 @@ macro_rules! ridge_p1 {
 ridge_p1!(c07_ridge_p1_n2, 2, 6);
 // @vp name=c07_ridge_p1_n3 prop=C07 tier=quick t=480 fns=RidgeRegression::fit,predict,cholesky_solve_mut,matmul,transpose size=n=3,p=1 dom=x-lattice(-3..3),y-lattice(-4..4),alpha{.5,1,2},no-normalisation,f32 stubs=traps,no_format
 ridge_p1!(c07_ridge_p1_n3, 3, 7);
+
+// the SVD solver on the same 1x1 system satisfies the same optimality condition (hence agrees with Cholesky)
+// @vp name=c07_ridge_p1_n2_svd prop=C07 tier=quick t=480 fns=RidgeRegression::fit,predict,svd_solve_mut,matmul,transpose size=n=2,p=1 dom=x-lattice(-3..3),y-lattice(-4..4),alpha{.5,1,2},no-normalisation,SVD-solver,f32 stubs=traps,no_format,hyp32
+ridge_p1!(c07_ridge_p1_n2_svd, 2, 6, RidgeRegressionSolverName::SVD);
 
 // ridge with normalisation, p = 1: the back-transformed (w, b) satisfy the stationarity conditions of
 // ||y - b - z w_z||^2 + alpha w_z^2 with z = (x - mu)/sigma: residuals sum to zero and w (n + alpha) sigma = sum (x - mu) y / sigma ... checked
